@@ -23,7 +23,12 @@ pub fn run(cfg: &Cfg, rep: &mut Report) {
         let op = sched[(it as usize * 7 + rng.below(3) as usize) % sched.len()];
         let seed = rng.next_u64();
         let scratch = if slow && rng.coin() { core_ops::ScratchMode::ExactUninit } else { core_ops::ScratchMode::Exact };
-        let opts = core_ops::Opts { fill_seed: 0xc17, scratch, fold: slow, tiny: slow };
+        // one window in four is an arbitrary (not 64-byte aligned) user slice: the library has to re-align what it carves out of it
+        let misalign = if rng.below(4) == 0 { [1usize, 8, 16, 24, 32, 40, 56, 63][rng.below(8) as usize] } else { 0 };
+        if misalign != 0 {
+            rep.count("misaligned_scratch_windows", 1);
+        }
+        let opts = core_ops::Opts { fill_seed: 0xc17, scratch, fold: slow, tiny: slow, misalign };
         let mut o = core_ops::run_case(op, seed, &opts);
         if o.setup_error.is_some() {
             rep.count("setup_panics", 1);
